@@ -9,6 +9,7 @@ import Driver.FuncOps
 import Driver.InvOps
 import Driver.ShellOps
 import Driver.RenderOps
+import Driver.LedgerOps
 namespace Bql
 
 def showDesc (d : List (String × Ty)) : String :=
@@ -66,6 +67,7 @@ def handle (st : DState) (sx : Sexp) : DState × String :=
   | .list (.atom "balance" :: _) => (st, (handleInv sx).getD "bad-op")
   | .list (.atom "shellscript" :: _) => (st, (handleShell sx).getD "bad-op")
   | .list (.atom "render" :: _) => (st, (handleRender sx).getD "bad-op")
+  | .list (.atom "tablerows" :: _) => (st, (handleLedger sx).getD "bad-op")
   | .list (.atom "numberify" :: _) => (st, (handleNumberify sx).getD "bad-op")
   | .list (.atom "cursor" :: _) => (st, (handleCursor sx).getD "bad-op")
   | .list [.atom "modelled-functions"] => (st, " ".intercalate modelledFunctions)
